@@ -51,7 +51,6 @@ func TestC05Fault(t *testing.T) {
 				em.Marker("begin", idx)
 				var ids []int64
 				var pairs []string
-				ncalls := 0
 				leaked := bubble(t, func(t *testing.T) {
 					ep := NewEndpoint("client")
 					ep.CheckCtx = true
@@ -126,7 +125,6 @@ func TestC05Fault(t *testing.T) {
 					for _, r := range all {
 						pairs = append(pairs, fmt.Sprintf("(%d, %s)", r.tok, coqZ(r.out)))
 					}
-					ncalls = len(all)
 					ep.FailRead(errInjected)
 					synctest.Wait()
 				})
@@ -140,7 +138,7 @@ func TestC05Fault(t *testing.T) {
 					tags = append(tags, "leaked-at-end")
 				}
 				em.Emit(Rec{Idx: idx, Kind: "c05-fault", Desc: map[string]any{"mode": mode, "in_flight": k, "new": m, "ids": ids, "pairs": pairs},
-					Tags: tags, Coq: fmt.Sprintf("C05Free %d %s %s", ncalls, coqList(terms), coqList(pairs))})
+					Tags: tags, Coq: fmt.Sprintf("C05FaultM %d %d %d %s %s", map[string]int{"cancel-in-write": 0, "cancel-in-write-twice": 1, "write-error": 2}[mode], k, m, coqList(terms), coqList(pairs))})
 				em.Marker("end", idx)
 				idx++
 			}
